@@ -1109,18 +1109,18 @@ static std::vector<ClassEntry> classTable()
             o.setText(f.at(4).items.at(0).s);
             return o;
         };
-        ClassEntry e; e.name = "Iq"; e.cxx = "QXmppIq"; e.fieldNames = { "id", "to", "from", "type", "extensions", "error" };
+        ClassEntry e; e.name = "Iq"; e.cxx = "QXmppIq"; e.fieldNames = { "lang", "id", "to", "from", "type", "extensions", "error" };
         e.wrapNs = "jabber:client"; e.hasRest = true;
-        auto tv = [=](const QXmppIq &o) { return Vals { vS(o.id()), vS(o.to()), vS(o.from()), vN(quint64(int(o.type()))), vL(restVals(o.extensions())), errVals(o.error()) }; };
+        auto tv = [=](const QXmppIq &o) { return Vals { vS(o.lang()), vS(o.id()), vS(o.to()), vS(o.from()), vN(quint64(int(o.type()))), vL(restVals(o.extensions())), errVals(o.error()) }; };
         e.run = [=](const QDomElement &el, QByteArray &out, Vals &vals) {
             QXmppIq o; o.parse(el); out = ser(o); vals = tv(o);
-            if (el.namespaceURI() != u"jabber:client") g_outsideModel = true;   // a stanza lives in the stream's namespace
+            if (el.namespaceURI() != u"jabber:client" || stanzaHazard(el)) g_outsideModel = true;   // a stanza lives in the stream's namespace
             return true;
         };
         e.build = [=](const Vals &v, Vals &rep) {
-            QXmppIq o; o.setId(v.at(0).s); o.setTo(v.at(1).s); o.setFrom(v.at(2).s); o.setType(QXmppIq::Type(int(v.at(3).n)));
-            QXmppElementList l; for (auto &t : v.at(4).items) l << elementOf(t, "jabber:client"); o.setExtensions(l);
-            o.setError(errOf(v.at(5)));
+            QXmppIq o; o.setLang(v.at(0).s); o.setId(v.at(1).s); o.setTo(v.at(2).s); o.setFrom(v.at(3).s); o.setType(QXmppIq::Type(int(v.at(4).n)));
+            QXmppElementList l; for (auto &t : v.at(5).items) l << elementOf(t, "jabber:client"); o.setExtensions(l);
+            o.setError(errOf(v.at(6)));
             rep = tv(o); return ser(o);
         };
         t.push_back(e);
@@ -1164,7 +1164,8 @@ static std::vector<ClassEntry> classTable()
             for (auto a = addrs.firstChildElement("address"); !a.isNull(); a = a.nextSiblingElement("address")) invalidAddr++;
             if (idle > 1) g_outsideModel = true;
             // a valid date-time that cannot be printed (UTC year > 9999): <idle/> is written without `since`
-            if (o.lastUserInteraction().isValid() && QXmppUtils::datetimeToString(o.lastUserInteraction()).isEmpty()) { g_outsideModel = true; g_failHint = ":idle-unprintable-date"; }
+            // (a valid but unprintable date, UTC year > 9999, is not written since /repo 9ef1911 and reported as "no date" by vD)
+            if (o.lastUserInteraction().isValid() && QXmppUtils::datetimeToString(o.lastUserInteraction()).isEmpty()) g_failHint = ":idle-unprintable-date";
             return true;
         };
         e.build = [=](const Vals &v, Vals &rep) {
@@ -1456,13 +1457,12 @@ static bool mutate(Tree &root, int kind, Rng &rng)
     return false;
 }
 
-// Documents on which QXmppElement (the passthrough of unknown children) is outside its model `normE`: an `xmlns=""` that
-// un-declares the parent's namespace is DROPPED by today's code (recorded findings …:input-has-xmlns-undeclaration; repaired by
-// fixes/C02-qxmppelement-keeps-xmlns-undeclaration.diff), prefixed element names lose their prefix (tagName() is the local name)
-// and `xmlns:p` declarations are not attributes under namespace processing.
+// Documents on which QXmppElement (the passthrough of unknown children) is outside its model `normE`: prefixed element names lose their
+// prefix (tagName() is the local name) and `xmlns:p` declarations are not attributes under namespace processing.  (An `xmlns=""` that
+// un-declares the parent's namespace is kept since /repo 5969ee4: fixed findings …:input-has-xmlns-undeclaration; such inputs are in the model.)
 static bool restHazard(const QByteArray &xml)
 {
-    if (xml.contains("xmlns=\"\"") || xml.contains("xmlns:")) return true;
+    if (xml.contains("xmlns:")) return true;
     for (int i = 0; (i = xml.indexOf('<', i)) >= 0; i++) {
         int j = i + 1; if (j < xml.size() && xml[j] == '/') j++;
         while (j < xml.size() && xml[j] != ' ' && xml[j] != '>' && xml[j] != '/') { if (xml[j] == ':') return true; j++; }
@@ -1520,10 +1520,7 @@ static bool processDoc(const ClassEntry &c, const QByteArray &xml, const std::st
     //  stanza itself moved into the stream's namespace is not a different document: compared with namespaces resolved)
     else if (c.hasRest && acc2 && canonWriterResolved(out2, QString::fromLatin1(c.wrapNs)) == canonWriterResolved(r.out, QString::fromLatin1(c.wrapNs))) oraclePass()++;
     else if (!acc2 || canonWriter(out2) != r.cout) {
-        // for the classes that keep unknown children, an input with xmlns="" fails for the recorded cause (QXmppElement drops the
-        // un-declaration): reported under the key the finding is recorded with
-        if (c.hasRest && xml.contains("xmlns=\"\"")) fail("C02:not-fixpoint:" + (c.cxx.empty() ? c.name : c.cxx) + ":input-has-xmlns-undeclaration", xml.toHex().toStdString());
-        else fail("C02:not-fixpoint:" + c.name + failHint, xml.toHex().toStdString());
+        fail("C02:not-fixpoint:" + c.name + failHint, xml.toHex().toStdString());
     }
     else oraclePass()++;
     return true;
@@ -1591,8 +1588,11 @@ int main(int argc, char **argv)
             // expiry in UTC year 10000: valid, was written as expiry="" and dropped by the second pass before /repo 339fb3c
             { "PubSubSubscriptionEvent", "<subscription jid=\"a@b\" expiry=\"9999-12-31T23:59:59-01:00\"/>" },
             // an invalid <crypto/> was kept, <encryption/> written empty and nothing on the next pass (before /repo 74a3584)
+            // an unknown child that un-declares its parent's namespace: QXmppElement dropped the xmlns="" before /repo 5969ee4
+            { "Iq", "<iq type=\"get\"><q xmlns=\"urn:verif:a\"><name xmlns=\"\"/></q></iq>" },
+            { "Message", "<message><q xmlns=\"urn:verif:a\"><body xmlns=\"\">t</body></q><z xmlns=\"\"/></message>" },
             { "JingleRtpEncryption", "<x><encryption xmlns=\"urn:xmpp:jingle:apps:rtp:1\"><crypto/></encryption></x>" },
-            // XEP-0319 idle time in UTC year 10000: valid, written as <idle/> without `since`, dropped by the second pass (recorded finding)
+            // XEP-0319 idle time in UTC year 10000: valid, was written as <idle/> without `since` and dropped by the second pass before /repo 9ef1911
             { "Presence", "<presence><idle xmlns=\"urn:xmpp:idle:1\" since=\"9999-12-31T23:59:59-01:00\"/></presence>" },
         };
         for (auto &row : CORPUS)
@@ -1610,7 +1610,7 @@ int main(int argc, char **argv)
         else oraclePass()++;
     }
     {
-        // QXmppIq reads xml:lang (QXmppStanza::parse) but toXml never writes it: the schema has no such field (it is unobservable in the XML)
+        // QXmppIq read xml:lang but never wrote it before /repo fc1d2c5 (fixed finding C01:field-mismatch:Iq:lang); kept as regression
         QXmppIq iq; iq.setId(QStringLiteral("i1")); iq.setLang(QStringLiteral("de"));
         QByteArray out = ser(iq);
         QDomDocument doc; QXmppIq back;
